@@ -1,14 +1,42 @@
 package main
 
 import (
+	"bufio"
 	"bytes"
 	"go/ast"
 	"go/printer"
 	"go/token"
+	"os"
+	"strings"
 )
 
 func nodeString(n ast.Node) string {
 	var buf bytes.Buffer
 	printer.Fprint(&buf, token.NewFileSet(), n)
 	return buf.String()
+}
+
+// productFile says whether a Go file is part of the product as built WITHOUT the `verif` tag:
+// not a test, and its build constraint (if any) does not require `verif`.
+func productFile(path string) bool {
+	if !strings.HasSuffix(path, ".go") || strings.HasSuffix(path, "_test.go") {
+		return false
+	}
+	f, err := os.Open(path)
+	if err != nil {
+		return false
+	}
+	defer f.Close()
+	sc := bufio.NewScanner(f)
+	for sc.Scan() {
+		line := strings.TrimSpace(sc.Text())
+		if strings.HasPrefix(line, "//go:build") {
+			c := strings.TrimSpace(strings.TrimPrefix(line, "//go:build"))
+			return c != "verif" // `!verif` (and anything else) is part of the default build
+		}
+		if strings.HasPrefix(line, "package ") {
+			break
+		}
+	}
+	return true
 }
